@@ -1,0 +1,104 @@
+package document
+
+import (
+	"reflect"
+	"testing"
+)
+
+// renderedShape lists, per body paragraph (and per table-cell paragraph, prefixed "T:"), the text of the
+// paragraph followed by "<PIC>" for every picture run.
+func renderedShape(doc *Document) []string {
+	var out []string
+	shape := func(prefix string, p *Paragraph) {
+		s := prefix
+		for _, r := range p.Runs {
+			s += r.Text.Content
+			if r.Drawing != nil {
+				s += "<PIC>"
+			}
+		}
+		out = append(out, s)
+	}
+	for _, e := range doc.Body.Elements {
+		switch el := e.(type) {
+		case *Paragraph:
+			shape("", el)
+		case *Table:
+			for i := range el.Rows {
+				for j := range el.Rows[i].Cells {
+					for k := range el.Rows[i].Cells[j].Paragraphs {
+						shape("T:", &el.Rows[i].Cells[j].Paragraphs[k])
+					}
+				}
+			}
+		}
+	}
+	return out
+}
+
+func renderWithPictures(t *testing.T, build func(d *Document)) []string {
+	t.Helper()
+	base := New()
+	build(base)
+	engine := NewTemplateEngine()
+	if _, err := engine.LoadTemplateFromDocument("t", base); err != nil {
+		t.Fatalf("LoadTemplateFromDocument: %v", err)
+	}
+	data := NewTemplateData()
+	img := createTestImage(10, 10)
+	for _, name := range []string{"a", "b", "c"} {
+		data.SetImageFromData(name, img, nil)
+	}
+	doc, err := engine.RenderTemplateToDocument("t", data)
+	if err != nil {
+		t.Fatalf("RenderTemplateToDocument: %v", err)
+	}
+	return renderedShape(doc)
+}
+
+// Both placeholder formats in one paragraph: pictures appear where their placeholders stood, the text
+// between and after them is kept (three placeholders used to panic with slice bounds out of range).
+func TestImagePlaceholdersOfBothFormatsKeepTextOrder(t *testing.T) {
+	got := renderWithPictures(t, func(d *Document) { d.AddParagraph("x [IMAGE:a] y {{#image b}} z") })
+	want := []string{"x ", "<PIC>", " y ", "<PIC>", " z"}
+	if !reflect.DeepEqual(got, want) {
+		t.Errorf("got %q, want %q", got, want)
+	}
+	got = renderWithPictures(t, func(d *Document) { d.AddParagraph("[IMAGE:a][IMAGE:c]{{#image b}}") })
+	want = []string{"<PIC>", "<PIC>", "<PIC>"}
+	if !reflect.DeepEqual(got, want) {
+		t.Errorf("got %q, want %q", got, want)
+	}
+}
+
+// Several body paragraphs with placeholders: each is replaced in place, nothing else moves or disappears.
+func TestImagePlaceholdersInSeveralBodyParagraphs(t *testing.T) {
+	got := renderWithPictures(t, func(d *Document) {
+		d.AddParagraph("first {{#image a}}")
+		d.AddParagraph("second {{#image b}}")
+		d.AddParagraph("third")
+		d.AddParagraph("fourth {{#image c}}")
+	})
+	want := []string{"first ", "<PIC>", "second ", "<PIC>", "third", "fourth ", "<PIC>"}
+	if !reflect.DeepEqual(got, want) {
+		t.Errorf("got %q, want %q", got, want)
+	}
+}
+
+// Several paragraphs of one table cell with placeholders: all of them are replaced.
+func TestImagePlaceholdersInSeveralCellParagraphs(t *testing.T) {
+	got := renderWithPictures(t, func(d *Document) {
+		table, err := d.AddTable(&TableConfig{Rows: 1, Cols: 1, Width: 5000})
+		if err != nil {
+			t.Fatalf("AddTable: %v", err)
+		}
+		table.Rows[0].Cells[0].Paragraphs = []Paragraph{
+			{Runs: []Run{{Text: Text{Content: "first {{#image a}}"}}}},
+			{Runs: []Run{{Text: Text{Content: "second {{#image b}}"}}}},
+		}
+	})
+	want := []string{"T:first ", "T:<PIC>", "T:second ", "T:<PIC>"}
+	if !reflect.DeepEqual(got, want) {
+		t.Errorf("got %q, want %q", got, want)
+	}
+}
